@@ -1300,6 +1300,17 @@ class OrderedMultiDict(dict):
                 raise KeyError(k)
         return default
 
+    def popitem(self):
+        """Remove the most-recently inserted key with all its values and
+        return it with its most-recently inserted value, as a
+        ``(key, value)`` pair. Raises :exc:`KeyError` if the dictionary
+        is empty.
+        """
+        if not self:
+            raise KeyError('popitem(): %s is empty' % self.__class__.__name__)
+        k = self.root[PREV][KEY]
+        return k, self.pop(k)
+
     def popall(self, k, default=_MISSING):
         """Remove all values under key *k*, returning them in the form of
         a list. Raises :exc:`KeyError` if the key is not present and no
